@@ -400,6 +400,11 @@ def check(ctx):
         # what is attached must be readable as custom items by the peer: the member count always precedes them
         from . import c07 as _c07
         _c07.count_always_present(ctx, f, rep, 'C16-R3')
+        # ... the datagram they ride in starts empty on every path, and nothing but the section writers touches it (the
+        # items of the one datagram sent after a failed header encode were unreadable in S195): C07-R3, and the count that
+        # precedes them is patched in place on every path (C07-R4)
+        _c07.r3_sections(ctx, f, _Rel(rep, 'C07-R3', 'C16-R3'), _c07.tables(ctx, f, c15._Quiet(rep, 'C16')))
+        _c07.r4_count(ctx, f, _Rel(rep, 'C07-R4', 'C16-R3'))
         r4_broadcast(ctx, f, rep)
         # what "choose_active_members(n, picker)" means: n members drawn among those that are active AND pass the picker
         # (sampling first and filtering afterwards wastes slots on ineligible members): C07-R6
